@@ -68,6 +68,514 @@ Section Safety.
     all: try (rewrite ?app_length; simpl; lia).
     all: try (apply not_true_is_false; intros ?).
     all: try (intuition congruence).
-    all: try (timeout 20 naive_solver).
-  Admitted.
+    all: try (intros t Ht; specialize (H2 t Ht); destruct H1 as [H1a H1b]; split;
+              [intros ?; simplify_eq; done | intros Hp; apply H2 in Hp; try specialize (H1b eq_refl); congruence]).
+  Qed.
+
+  Lemma cinv_thread cap cf s t s' : t ≠ reader_tid → CInv cap s → thread_step cf s t = Some s' → CInv cap s'.
+  Proof.
+    intros Ht [H1 H2 H3 H4 H5 H6 H7 H8 H9 H10 H11 H12 H13] Hs.
+    destruct s as [m dc fc rc eb ec erc r th dt rev rer ln pk]; simpl in *.
+    unfold Conc.thread_step in Hs; simpl in Hs.
+    destruct (th !! t) as [p|] eqn:Hp; [|done].
+    pose proof (H2 t Ht) as H2t. rewrite Hp in H2t.
+    destruct p; repeat case_match; simplify_eq; constructor; simpl in *.
+    all: try done.
+    all: try (rewrite lookup_insert_ne by done; done).
+    all: try (intros _; eapply H12; [exact Hp| tauto]).
+    all: try (intros t0 p0 Hl Hk; destruct (decide (t0 = t)) as [->|Hne];
+              [rewrite lookup_insert in Hl; simplify_eq; try (eapply H12; [exact Hp| tauto]); naive_solver
+              |rewrite lookup_insert_ne in Hl by done; eapply H12; eauto]).
+    all: try (intros t0 Hl; destruct (decide (t0 = t)) as [->|Hne];
+              [rewrite lookup_insert in Hl; simplify_eq; try (eapply H13; exact Hp)
+              |rewrite lookup_insert_ne in Hl by done; eapply H13; eauto]).
+    all: try (try (assert (m = Some t) as Hm by (apply H2t; eexists; split; [reflexivity|done]));
+              split; [intros ?; congruence | intros Hr; apply H1 in Hr; congruence]).
+    all: try (intros t0 Ht0; pose proof (H2 t0 Ht0) as H2a; destruct (decide (t0 = t)) as [->|Hne];
+              [rewrite lookup_insert; clear -H2a H2t Ht Ht0 | rewrite lookup_insert_ne by done; clear -H2a H2t Ht Ht0 Hne];
+              timeout 20 naive_solver).
+  Qed.
+
+  Ltac cinv_fin :=
+    try done; try (rewrite ?app_length in *; simpl in *; lia);
+    try (apply not_true_is_false; intros ?); try (intuition congruence).
+
+  Lemma cinv_consume_ev cap (s s' : cstate) : CInv cap s → consume_ev s = Some s' → CInv cap s'.
+  Proof.
+    intros [H1 H2 H3 H4 H5 H6 H7 H8 H9 H10 H11 H12 H13] Hs.
+    destruct s as [m dc fc rc eb ec erc r th dt rev rer ln pk]; simpl in *.
+    unfold consume_ev in Hs; simpl in Hs.
+    repeat case_match; simplify_eq; constructor; simpl in *.
+    all: cinv_fin.
+  Qed.
+
+  Lemma cinv_consume_er cap (s s' : cstate) : CInv cap s → consume_er s = Some s' → CInv cap s'.
+  Proof.
+    intros [H1 H2 H3 H4 H5 H6 H7 H8 H9 H10 H11 H12 H13] Hs.
+    destruct s as [m dc fc rc eb ec erc r th dt rev rer ln pk]; simpl in *.
+    unfold consume_er in Hs; simpl in Hs.
+    repeat case_match; simplify_eq; constructor; simpl in *.
+    all: cinv_fin.
+  Qed.
+
+  Lemma cinv_kernel cap cf s b s' : CInv cap s → cstep cap cf s (LKernel b) = Some s' → CInv cap s'.
+  Proof.
+    intros [H1 H2 H3 H4 H5 H6 H7 H8 H9 H10 H11 H12 H13] Hs.
+    destruct s as [m dc fc rc eb ec erc r th dt rev rer ln pk]; simpl in *.
+    repeat case_match; simplify_eq; constructor; simpl in *.
+    all: cinv_fin.
+  Qed.
+
+  Lemma cinv_spawn cap cf s t p s' : CInv cap s → cstep cap cf s (LSpawn t p) = Some s' → CInv cap s'.
+  Proof.
+    intros [H1 H2 H3 H4 H5 H6 H7 H8 H9 H10 H11 H12 H13] Hs.
+    destruct s as [m dc fc rc eb ec erc r th dt rev rer ln pk]; simpl in *.
+    destruct (decide (t = reader_tid)) as [|Ht]; [done|].
+    destruct (th !! t) eqn:Hp; [by destruct p|].
+    assert (∃ s0, Some s0 = Some s' ∧ s0 = upd_thr (mkC m dc fc rc eb ec erc r th dt rev rer ln pk) t p
+            ∧ thread_in_cs p = false ∧ p ≠ KCloseFile ∧ p ≠ KWaitResp ∧ p ≠ KDone) as (s0 & Hs0 & -> & Hc & Hk1 & Hk2 & Hk3).
+    { destruct p; try done; eexists; split; try exact Hs; done. }
+    clear Hs. simplify_eq. unfold upd_thr. constructor; simpl in *.
+    all: cinv_fin.
+    - intros t0 Ht0. specialize (H2 t0 Ht0). destruct (decide (t0 = t)) as [->|Hne].
+      + rewrite lookup_insert. rewrite Hp in H2. split.
+        * intros Hm. apply H2 in Hm as (? & ? & _). done.
+        * intros (p0 & ? & ?). simplify_eq. congruence.
+      + by rewrite lookup_insert_ne.
+    - by rewrite lookup_insert_ne.
+    - intros t0 p0 Hl Hk. destruct (decide (t0 = t)) as [->|Hne].
+      + rewrite lookup_insert in Hl. simplify_eq. tauto.
+      + rewrite lookup_insert_ne in Hl by done. eauto.
+    - intros t0 Hl. destruct (decide (t0 = t)) as [->|Hne].
+      + rewrite lookup_insert in Hl. simplify_eq.
+      + rewrite lookup_insert_ne in Hl by done. eauto.
+  Qed.
+
+  Theorem cinv_step cap cf s l s' : CInv cap s → cstep cap cf s l = Some s' → CInv cap s'.
+  Proof.
+    intros HI Hs. destruct l as [t| | |b|t p].
+    - simpl in Hs. destruct (decide (t = reader_tid)) as [->|Ht].
+      + by eapply cinv_reader.
+      + by eapply cinv_thread.
+    - by eapply cinv_consume_ev.
+    - by eapply cinv_consume_er.
+    - by eapply cinv_kernel.
+    - by eapply cinv_spawn.
+  Qed.
+
+  Theorem cinv_reachable cap cf d s : reachable cap cf d s → CInv cap s.
+  Proof.
+    revert s. apply reachable_induction; [apply cinv_init|].
+    intros s l s' _ HI Hs. by eapply cinv_step.
+  Qed.
+
+  (* ---------- 2. no panic ---------- *)
+  Theorem no_panic cap cf d s : reachable cap cf d s → panicked s = false.
+  Proof. intros Hr. by apply (ci_no_panic _ _ (cinv_reachable _ _ _ _ Hr)). Qed.
+
+  (* ---------- 3. mutual exclusion ---------- *)
+  Lemma cinv_holder_thread cap (s : cstate) t p :
+    CInv cap s → thr s !! t = Some p → thread_in_cs p = true → t ≠ reader_tid ∧ mu s = Some t.
+  Proof.
+    intros HI Hp Hc. assert (t ≠ reader_tid) as Ht.
+    { intros ->. rewrite (ci_no_reader_thread _ _ HI) in Hp. done. }
+    split; [done|]. apply (ci_thread_mu _ _ HI t Ht). eauto.
+  Qed.
+
+  Theorem mutual_exclusion cap cf d s :
+    reachable cap cf d s →
+    (∀ t1 t2, mu s = Some t1 → mu s = Some t2 → t1 = t2) ∧
+    (∀ t1 t2 p1 p2, thr s !! t1 = Some p1 → thr s !! t2 = Some p2 →
+                    thread_in_cs p1 = true → thread_in_cs p2 = true → t1 = t2) ∧
+    (∀ t p, thr s !! t = Some p → thread_in_cs p = true → reader_in_cs (rd s) = false).
+  Proof.
+    intros Hr. pose proof (cinv_reachable _ _ _ _ Hr) as HI. split; [|split].
+    - intros t1 t2 H1 H2. congruence.
+    - intros t1 t2 p1 p2 Hp1 Hp2 Hc1 Hc2.
+      destruct (cinv_holder_thread _ _ _ _ HI Hp1 Hc1) as [_ Hm1].
+      destruct (cinv_holder_thread _ _ _ _ HI Hp2 Hc2) as [_ Hm2]. congruence.
+    - intros t p Hp Hc. destruct (cinv_holder_thread _ _ _ _ HI Hp Hc) as [Ht Hm].
+      apply not_true_is_false. intros Hrd. apply (ci_reader_mu _ _ HI) in Hrd. congruence.
+  Qed.
+
+  (* ---------- 4. nothing blocks inside a critical section ---------- *)
+  Ltac step_cases Hs :=
+    match type of Hs with
+    | Conc.cstep _ _ _ _ ?s ?l = Some _ =>
+      destruct s as [m dc fc rc eb ec erc r th dt rev rer ln pk]; destruct l as [t| | |b|t p]; simpl in Hs;
+      unfold Conc.reader_step, Conc.thread_step, consume_ev, consume_er, upd_thr, upd_rd, upd_mu, after_pre, after_post in Hs;
+      simpl in Hs;
+      repeat (match type of Hs with context [ match ?x with _ => _ end ] => destruct x eqn:? end;
+              simpl in Hs; try discriminate Hs);
+      simplify_eq
+    end.
+
+  Definition is_cssend (p : rpc) : bool := match p with RCsSend _ _ _ => true | _ => false end.
+
+  Lemma no_cssend_step cap cf s l s' :
+    cf_send_in_cs cf = false → is_cssend (rd s) = false → cstep cap cf s l = Some s' → is_cssend (rd s') = false.
+  Proof. intros Hcf Hc Hs. step_cases Hs; simpl in *; done. Qed.
+
+  Lemma no_cssend_reachable cap cf d s :
+    cf_send_in_cs cf = false → reachable cap cf d s → is_cssend (rd s) = false.
+  Proof.
+    intros Hcf. revert s. apply reachable_induction; [done|].
+    intros s l s' _ HI Hs. by eapply no_cssend_step.
+  Qed.
+
+  Theorem no_blocking_in_cs cap cf d s :
+    cf_send_in_cs cf = false → reachable cap cf d s →
+    (∀ ms a r, rd s ≠ RCsSend ms a r) ∧ (reader_step cap cf s = None → mu s ≠ Some reader_tid).
+  Proof.
+    intros Hcf Hr. pose proof (no_cssend_reachable _ _ _ _ Hcf Hr) as Hn.
+    pose proof (cinv_reachable _ _ _ _ Hr) as HI. split.
+    - intros ms a r Hrd. rewrite Hrd in Hn. done.
+    - intros Hnone Hmu. apply (ci_reader_mu _ _ HI) in Hmu.
+      unfold Conc.reader_step in Hnone. destruct (rd s); try done. by rewrite Hcf in Hnone.
+  Qed.
+
+  (* a caller or closer inside its critical section can always take its next step *)
+  Theorem cs_thread_not_blocked cap cf (s : cstate) t p :
+    t ≠ reader_tid → thr s !! t = Some p → thread_in_cs p = true → is_Some (cstep cap cf s (LThr t)).
+  Proof.
+    intros Ht Hp Hc. simpl. destruct (decide (t = reader_tid)); [done|].
+    unfold Conc.thread_step. rewrite Hp. destruct p; try done.
+    - destruct (api (data s) c); eauto.
+    - destruct (done_closed s); eauto.
+  Qed.
+
+  (* ---------- 5. order and completeness of delivery, for every capacity ---------- *)
+  Lemma evs_of_app (a b : list msg) : evs_of (a ++ b) = evs_of a ++ evs_of b.
+  Proof. apply omap_app. Qed.
+  Lemma ers_of_app (a b : list msg) : ers_of (a ++ b) = ers_of a ++ ers_of b.
+  Proof. apply omap_app. Qed.
+  Lemma evs_of_nil : evs_of ([] : list msg) = [].
+  Proof. done. Qed.
+  Lemma ers_of_nil : ers_of ([] : list msg) = [].
+  Proof. done. Qed.
+  Lemma evs_of_cons_ev e (ms : list msg) : evs_of (MEv e :: ms) = e :: evs_of ms.
+  Proof. done. Qed.
+  Lemma evs_of_cons_er x (ms : list msg) : evs_of (MEr x :: ms) = evs_of ms.
+  Proof. done. Qed.
+  Lemma ers_of_cons_ev e (ms : list msg) : ers_of (MEv e :: ms) = ers_of ms.
+  Proof. done. Qed.
+  Lemma ers_of_cons_er x (ms : list msg) : ers_of (MEr x :: ms) = x :: ers_of ms.
+  Proof. done. Qed.
+  #[local] Opaque evs_of ers_of.
+  Lemma evs_of_err_msgs (l : list msg) : evs_of (err_msgs l) = [].
+  Proof. induction l as [|[e|x] l IH]; simpl; rewrite ?evs_of_cons_ev, ?evs_of_cons_er; auto. Qed.
+  Lemma evs_of_ev_msgs (l : list msg) : evs_of (ev_msgs l) = evs_of l.
+  Proof. induction l as [|[e|x] l IH]; simpl; rewrite ?evs_of_cons_ev, ?evs_of_cons_er; auto. by f_equal. Qed.
+  Lemma ers_of_err_msgs (l : list msg) : ers_of (err_msgs l) = ers_of l.
+  Proof. induction l as [|[e|x] l IH]; simpl; rewrite ?ers_of_cons_ev, ?ers_of_cons_er; auto. by f_equal. Qed.
+  Lemma ers_of_ev_msgs (l : list msg) : ers_of (ev_msgs l) = [].
+  Proof. induction l as [|[e|x] l IH]; simpl; rewrite ?ers_of_cons_ev, ?ers_of_cons_er; auto. Qed.
+  Lemma evs_of_split (l : list msg) : evs_of (err_msgs l ++ ev_msgs l) = evs_of l.
+  Proof. by rewrite evs_of_app, evs_of_err_msgs, evs_of_ev_msgs. Qed.
+  Lemma ers_of_split (l : list msg) : ers_of (err_msgs l ++ ev_msgs l) = ers_of l.
+  Proof. by rewrite ers_of_app, ers_of_err_msgs, ers_of_ev_msgs, app_nil_r. Qed.
+
+  Lemma delivered_app (l1 l2 : list label) : delivered (l1 ++ l2) = delivered l1 ++ delivered l2.
+  Proof.
+    induction l1 as [|l l1 IH]; [done|]. destruct l; simpl; try done. by rewrite IH, app_assoc.
+  Qed.
+
+  (* the mutex-held sends of handleEvent are error sends only *)
+  Definition CsErrOnly (s : cstate) : Prop := match rd s with RCsSend ms _ _ => evs_of ms = [] | _ => True end.
+
+  Lemma cs_err_only_step cap cf s l s' : CsErrOnly s → cstep cap cf s l = Some s' → CsErrOnly s'.
+  Proof.
+    unfold CsErrOnly. intros Hc Hs. step_cases Hs; simpl in *; try done.
+    all: rewrite ?evs_of_err_msgs, ?evs_of_cons_er, ?evs_of_cons_ev in *; try done.
+  Qed.
+
+  Lemma cs_err_only_reachable cap cf d s : reachable cap cf d s → CsErrOnly s.
+  Proof.
+    revert s. apply reachable_induction; [done|].
+    intros s l s' _ HI Hs. by eapply cs_err_only_step.
+  Qed.
+
+  Definition FifoEv (del : list msg) (s : cstate) : Prop :=
+    ∃ dropped, evs_of del = recvd_ev s ++ ev_buf s ++ evs_of (pending_msgs (rd s)) ++ dropped
+               ∧ (reader_exiting (rd s) = false → dropped = []).
+  Definition FifoEr (del : list msg) (s : cstate) : Prop :=
+    ∃ dropped, ers_of del = recvd_er s ++ ers_of (pending_msgs (rd s)) ++ dropped
+               ∧ (reader_exiting (rd s) = false → dropped = []).
+
+  Lemma fifo_ev_step cap cf del s l s' :
+    CsErrOnly s → FifoEv del s → cstep cap cf s l = Some s' → FifoEv (del ++ delivered [l]) s'.
+  Proof.
+    unfold CsErrOnly, FifoEv. intros Hc (dr & Heq & Hdr) Hs. rewrite evs_of_app, Heq. clear Heq.
+    step_cases Hs; simpl in *; try specialize (Hdr eq_refl); subst.
+    all: try (rewrite evs_of_cons_ev in Hc; discriminate Hc).
+    all: match goal with
+         | |- ∃ d, _ ∧ (true = false → _) => eexists; split; [rewrite <- ?app_assoc; reflexivity | by intros [=]]
+         | |- ∃ d, _ ∧ (false = false → _) => exists []; split; [|done]
+         | |- _ => exists dr; split; [|exact Hdr]
+         end.
+    all: unfold item_msgs;
+         rewrite ?evs_of_cons_ev, ?evs_of_cons_er, ?evs_of_app, ?evs_of_err_msgs, ?evs_of_ev_msgs, ?evs_of_nil.
+    all: rewrite ?app_nil_r, <- ?app_assoc; simpl; try reflexivity.
+  Qed.
+
+  Lemma fifo_er_step cap cf del s l s' :
+    FifoEr del s → cstep cap cf s l = Some s' → FifoEr (del ++ delivered [l]) s'.
+  Proof.
+    unfold FifoEr. intros (dr & Heq & Hdr) Hs. rewrite ers_of_app, Heq. clear Heq.
+    step_cases Hs; simpl in *; try specialize (Hdr eq_refl); subst.
+    all: match goal with
+         | |- ∃ d, _ ∧ (true = false → _) => eexists; split; [rewrite <- ?app_assoc; reflexivity | by intros [=]]
+         | |- ∃ d, _ ∧ (false = false → _) => exists []; split; [|done]
+         | |- _ => exists dr; split; [|exact Hdr]
+         end.
+    all: unfold item_msgs;
+         rewrite ?ers_of_cons_ev, ?ers_of_cons_er, ?ers_of_app, ?ers_of_err_msgs, ?ers_of_ev_msgs, ?ers_of_nil.
+    all: rewrite ?app_nil_r, <- ?app_assoc; simpl; try reflexivity.
+  Qed.
+
+  Lemma fifo_run cap cf d ls s :
+    crun cap cf (cinit d) ls = Some s → CsErrOnly s ∧ FifoEv (delivered ls) s ∧ FifoEr (delivered ls) s.
+  Proof.
+    revert s. induction ls as [|l ls IH] using rev_ind; intros s Hr.
+    - simpl in Hr. simplify_eq. split; [done|].
+      split; exists []; simpl; by rewrite ?evs_of_nil, ?ers_of_nil.
+    - rewrite crun_snoc in Hr. destruct (crun cap cf (cinit d) ls) as [s0|] eqn:Hr0; [|done].
+      simpl in Hr. destruct (IH s0 eq_refl) as (Hc & Hev & Her). rewrite delivered_app.
+      split; [by eapply cs_err_only_step|]. split; [by eapply fifo_ev_step | by eapply fifo_er_step].
+  Qed.
+
+  (* The statement does not mention cap except as the parameter of crun: what the consumer has received on Events
+     (and what sits in the buffer) is a prefix of the one stream the kernel delivered, for every capacity, every
+     schedule and every consumer pace; nothing is lost or reordered until the reader starts exiting. *)
+  Theorem events_fifo cap cf d ls s :
+    crun cap cf (cinit d) ls = Some s →
+    (∃ dropped, evs_of (delivered ls) = recvd_ev s ++ ev_buf s ++ evs_of (pending_msgs (rd s)) ++ dropped
+                ∧ (reader_exiting (rd s) = false → dropped = [])) ∧
+    (reader_exiting (rd s) = false →
+     recvd_ev s ++ ev_buf s ++ evs_of (pending_msgs (rd s)) = evs_of (delivered ls)) ∧
+    (recvd_ev s ++ ev_buf s) `prefix_of` evs_of (delivered ls).
+  Proof.
+    intros Hr. destruct (fifo_run _ _ _ _ _ Hr) as (_ & (dr & Heq & Hdr) & _). split; [by exists dr|]. split.
+    - intros Hex. rewrite Heq, (Hdr Hex), app_nil_r. done.
+    - rewrite Heq. exists (evs_of (pending_msgs (rd s)) ++ dr). by rewrite <- app_assoc.
+  Qed.
+
+  Theorem errors_fifo cap cf d ls s :
+    crun cap cf (cinit d) ls = Some s →
+    (∃ dropped, ers_of (delivered ls) = recvd_er s ++ ers_of (pending_msgs (rd s)) ++ dropped
+                ∧ (reader_exiting (rd s) = false → dropped = [])) ∧
+    (reader_exiting (rd s) = false → recvd_er s ++ ers_of (pending_msgs (rd s)) = ers_of (delivered ls)) ∧
+    recvd_er s `prefix_of` ers_of (delivered ls).
+  Proof.
+    intros Hr. destruct (fifo_run _ _ _ _ _ Hr) as (_ & _ & (dr & Heq & Hdr)). split; [by exists dr|]. split.
+    - intros Hex. rewrite Heq, (Hdr Hex), app_nil_r. done.
+    - rewrite Heq. by eexists.
+  Qed.
+
+  (* independence from the buffer size: two runs with different capacities (and schedules, consumers, code facts) that
+     were handed the same notifications have received comparable sequences: one is a prefix of the other *)
+  Corollary capacity_independent cap1 cap2 cf1 cf2 d1 d2 ls1 ls2 s1 s2 :
+    crun cap1 cf1 (cinit d1) ls1 = Some s1 → crun cap2 cf2 (cinit d2) ls2 = Some s2 →
+    delivered ls1 = delivered ls2 →
+    (recvd_ev s1 `prefix_of` recvd_ev s2 ∨ recvd_ev s2 `prefix_of` recvd_ev s1) ∧
+    (recvd_er s1 `prefix_of` recvd_er s2 ∨ recvd_er s2 `prefix_of` recvd_er s1).
+  Proof.
+    intros H1 H2 Hd.
+    destruct (events_fifo _ _ _ _ _ H1) as (_ & _ & Hp1). destruct (events_fifo _ _ _ _ _ H2) as (_ & _ & Hp2).
+    destruct (errors_fifo _ _ _ _ _ H1) as (_ & _ & Hq1). destruct (errors_fifo _ _ _ _ _ H2) as (_ & _ & Hq2).
+    rewrite Hd in Hp1, Hq1. split.
+    - apply (prefix_weak_total _ _ (evs_of (delivered ls2))).
+      + etrans; [|exact Hp1]. by eexists.
+      + etrans; [|exact Hp2]. by eexists.
+    - eapply prefix_weak_total; eassumption.
+  Qed.
+
+  (* ---------- 6. linearizability ---------- *)
+  Lemma seq_run_app d (cs1 cs2 : list (C * R)) :
+    seq_run api d (cs1 ++ cs2) = seq_run api d cs1 ≫= λ d1, seq_run api d1 cs2.
+  Proof.
+    revert d. induction cs1 as [|[c r] cs1 IH]; intros d; simpl; [done|]. destruct (api d c). apply IH.
+  Qed.
+
+  Lemma seq_results_ok_snoc d cs c r d1 :
+    seq_run api d cs = Some d1 → seq_results_ok api d cs → (api d1 c).2 = r → seq_results_ok api d (cs ++ [(c, r)]).
+  Proof.
+    intros Hrun Hok Hr pre c0 r0 post Heq. destruct post as [|x post _] using rev_ind.
+    - apply app_inj_tail in Heq as [-> Hx]. simplify_eq. eauto.
+    - rewrite app_comm_cons, app_assoc in Heq. apply app_inj_tail in Heq as [Heq _]. eapply Hok; eauto.
+  Qed.
+
+  Definition LinInv (d : D) (s : cstate) : Prop := seq_run api d (lin s) = Some (data s) ∧ seq_results_ok api d (lin s).
+
+  Lemma lin_inv_step cap cf d s l s' : LinInv d s → cstep cap cf s l = Some s' → LinInv d s'.
+  Proof.
+    unfold LinInv. intros [Hrun Hok] Hs. step_cases Hs; simpl in *; try done.
+    split.
+    - rewrite seq_run_app, Hrun. simpl. by match goal with H : api _ _ = _ |- _ => rewrite H end.
+    - eapply seq_results_ok_snoc; [done..|]. by match goal with H : api _ _ = _ |- _ => rewrite H end.
+  Qed.
+
+  Theorem linearizable cap cf d ls s :
+    crun cap cf (cinit d) ls = Some s → seq_run api d (lin s) = Some (data s) ∧ seq_results_ok api d (lin s).
+  Proof.
+    intros Hr. assert (reachable cap cf d s) as Hre by (by exists ls). clear Hr. revert s Hre.
+    apply (reachable_induction cap cf d (LinInv d)).
+    - split; [done|]. intros pre c r post Heq. by destruct pre.
+    - intros s l s' _ HI Hs. by eapply lin_inv_step.
+  Qed.
+
+  (* real-time order: a call enters lin exactly at its critical-section step, i.e. after its spawn and before its
+     return, with the result it returns and computed from the data of that moment; lin only grows at the end *)
+  Theorem lin_point cap cf (s : cstate) t c s' :
+    t ≠ reader_tid → thr s !! t = Some (CInCs c) → cstep cap cf s (LThr t) = Some s' →
+    ∃ r, thr s' !! t = Some (CDone r) ∧ lin s' = lin s ++ [(c, r)] ∧ api (data s) c = (data s', r) ∧ mu s' = None.
+  Proof.
+    intros Ht Hp Hs. simpl in Hs. destruct (decide (t = reader_tid)); [done|].
+    unfold Conc.thread_step in Hs. rewrite Hp in Hs. destruct (api (data s) c) as [d' r] eqn:Ha.
+    simplify_eq. exists r. simpl. by rewrite lookup_insert.
+  Qed.
+
+  Theorem lin_mono cap cf s l s' : cstep cap cf s l = Some s' → lin s `prefix_of` lin s'.
+  Proof. intros Hs. step_cases Hs; simpl; try done. by eexists. Qed.
+
+  Lemma lin_mono_run cap cf s ls s' : crun cap cf s ls = Some s' → lin s `prefix_of` lin s'.
+  Proof.
+    revert s. induction ls as [|l ls IH]; intros s Hr; simpl in Hr; [by simplify_eq|].
+    destruct (cstep cap cf s l) as [s1|] eqn:Hs; [|done]. etrans; [by eapply lin_mono|by apply IH].
+  Qed.
+
+  Corollary lin_call_stays cap cf (s : cstate) t c s1 ls s2 :
+    t ≠ reader_tid → thr s !! t = Some (CInCs c) → cstep cap cf s (LThr t) = Some s1 → crun cap cf s1 ls = Some s2 →
+    ∃ r, thr s1 !! t = Some (CDone r) ∧ (c, r) ∈ lin s2.
+  Proof.
+    intros Ht Hp Hs Hr. destruct (lin_point _ _ _ _ _ _ Ht Hp Hs) as (r & Hd & Hl & _). exists r. split; [done|].
+    destruct (lin_mono_run _ _ _ _ _ Hr) as [k ->]. rewrite Hl. set_solver.
+  Qed.
+
+  Theorem lin_only_in_cs cap cf s l s' :
+    cstep cap cf s l = Some s' → lin s' ≠ lin s → ∃ t c, l = LThr t ∧ thr s !! t = Some (CInCs c).
+  Proof. intros Hs Hne. step_cases Hs; simpl in *; try done. eauto. Qed.
+
+  (* ---------- 7. inert after Close ---------- *)
+  Theorem inert_after_close cap cf (s : cstate) t c :
+    cf_guard_first cf = true → done_closed s = true → thr s !! t = Some (CStart c) → t ≠ reader_tid →
+    ∃ s', cstep cap cf s (LThr t) = Some s' ∧ thr s' !! t = Some (CDone (closed_result c)) ∧ data s' = data s
+          ∧ mu s' = mu s.
+  Proof.
+    intros Hg Hd Hp Ht. simpl. destruct (decide (t = reader_tid)); [done|].
+    unfold Conc.thread_step. rewrite Hp, Hg, Hd. simpl. eexists; split; [done|]. simpl. by rewrite lookup_insert.
+  Qed.
+
+  Theorem done_stays_closed cap cf s l s' :
+    cstep cap cf s l = Some s' →
+    (done_closed s = true → done_closed s' = true) ∧ (file_closed s = true → file_closed s' = true) ∧
+    (resp_closed s = true → resp_closed s' = true) ∧ (ev_closed s = true → ev_closed s' = true) ∧
+    (er_closed s = true → er_closed s' = true).
+  Proof. intros Hs. step_cases Hs; simpl; tauto. Qed.
+
+  Corollary done_stays_closed_run cap cf s ls s' :
+    crun cap cf s ls = Some s' → done_closed s = true → done_closed s' = true.
+  Proof.
+    revert s. induction ls as [|l ls IH]; intros s Hr Hd; simpl in Hr; [by simplify_eq|].
+    destruct (cstep cap cf s l) as [s1|] eqn:Hs; [|done]. apply (IH _ Hr). by apply (done_stays_closed _ _ _ _ _ Hs).
+  Qed.
+
+  (* ---------- 8. closers ---------- *)
+  Theorem close_effects cap cf d s t :
+    reachable cap cf d s →
+    (thr s !! t = Some KDone → done_closed s = true) ∧
+    (thr s !! t = Some KWaitResp → file_closed s = true ∧ done_closed s = true).
+  Proof.
+    intros Hr. pose proof (cinv_reachable _ _ _ _ Hr) as HI. split.
+    - intros Hp. eapply (ci_closer_done _ _ HI); eauto.
+    - intros Hp. split; [by eapply (ci_waitresp_file _ _ HI)|]. eapply (ci_closer_done _ _ HI); eauto.
+  Qed.
+
+  (* `done` is closed at most once: from a state where it is closed, the critical section of Close goes straight to
+     its return and touches no channel ... *)
+  Theorem done_closed_once cap cf (s : cstate) t s' :
+    t ≠ reader_tid → thr s !! t = Some KInCs → done_closed s = true → cstep cap cf s (LThr t) = Some s' →
+    thr s' !! t = Some KDone ∧ done_closed s' = true ∧ file_closed s' = file_closed s ∧ resp_closed s' = resp_closed s
+    ∧ ev_closed s' = ev_closed s ∧ er_closed s' = er_closed s ∧ ev_buf s' = ev_buf s ∧ panicked s' = panicked s.
+  Proof.
+    intros Ht Hp Hd Hs. simpl in Hs. destruct (decide (t = reader_tid)); [done|].
+    unfold Conc.thread_step in Hs. rewrite Hp, Hd in Hs. simplify_eq. simpl. by rewrite lookup_insert.
+  Qed.
+
+  (* ... and the only step that closes it is that critical section, taken from a state where it is still open *)
+  Theorem done_closed_by cap cf s l s' :
+    cstep cap cf s l = Some s' → done_closed s = false → done_closed s' = true →
+    ∃ t, l = LThr t ∧ t ≠ reader_tid ∧ thr s !! t = Some KInCs ∧ thr s' !! t = Some KCloseFile.
+  Proof.
+    intros Hs H0 H1. step_cases Hs; simpl in *; try congruence.
+    eexists; split; [done|]. split; [done|]. split; [done|]. by rewrite lookup_insert.
+  Qed.
 End Safety.
+
+(* ---------- 9. non-vacuity: concrete runs ---------- *)
+Section Examples.
+  Definition ex_api (d c : nat) : nat * nat := (d + c, d).
+  Definition ex_closed (c : nat) : nat := 0.
+  Definition ex_it1 : @item nat nat := mkItem [] [MEv 10].
+  Definition ex_it2 : @item nat nat := mkItem [MEr 7] [MEv 11].
+  Definition ex_cf : cfacts := mkCf false true.
+
+  (* capacity 1: a caller, a batch of two notifications, the reader, the consumer, Close, a call after Close, a second Close *)
+  Definition ex_labels : list (@label nat nat nat nat) :=
+    [ LSpawn 1 (CStart 5); LThr 1; LThr 1; LThr 1;                  (* Add: isClosed?, Lock, critical section *)
+      LThr 0; LKernel [ex_it1; ex_it2];                             (* the reader blocks in Read; the kernel delivers *)
+      LThr 0; LThr 0; LThr 0; LThr 0; LThr 0; LThr 0;               (* item 1: lock, unlock, event 10 into the buffer *)
+      LThr 0; LConsumeEr; LThr 0; LThr 0; LThr 0;                   (* item 2: error 7 by rendezvous, lock, unlock *)
+      LConsumeEv; LThr 0; LThr 0; LThr 0; LConsumeEv;               (* buffer full until the consumer takes 10; then 11 *)
+      LSpawn 2 KStart; LThr 2; LThr 2; LThr 2;                      (* Close: lock, close(done), close the file *)
+      LThr 0; LThr 0; LThr 2; LThr 0; LThr 0;                       (* the reader exits; Close returns *)
+      LSpawn 3 (CStart 9); LThr 3;                                  (* a call after Close returns closed_result at once *)
+      LSpawn 4 KStart; LThr 4; LThr 4 ].                            (* a second Close closes nothing *)
+
+  Example ex_run :
+    match crun ex_api ex_closed 1 ex_cf (cinit 0) ex_labels with
+    | Some s => recvd_ev s = [10; 11] ∧ recvd_er s = [7] ∧ ev_buf s = [] ∧ lin s = [(5, 0)] ∧ data s = 5
+                ∧ thr s !! 1 = Some (CDone 0) ∧ thr s !! 2 = Some KDone ∧ thr s !! 3 = Some (CDone 0)
+                ∧ thr s !! 4 = Some KDone ∧ rd s = RDead ∧ mu s = None ∧ panicked s = false
+                ∧ done_closed s = true ∧ ev_closed s = true ∧ er_closed s = true
+    | None => False
+    end.
+  Proof. vm_compute. repeat split. Qed.
+
+  (* with capacity 1 the reader is blocked while the buffer is full (label 18 replaced by a reader step) *)
+  Example ex_blocked : crun ex_api ex_closed 1 ex_cf (cinit 0) (take 17 ex_labels ++ [LThr 0]) = None.
+  Proof. vm_compute. reflexivity. Qed.
+
+  (* capacity 0: every event is handed over by rendezvous; the consumer receives the same sequence *)
+  Definition ex_labels0 : list (@label nat nat nat nat) :=
+    [ LThr 0; LKernel [ex_it1; ex_it2];
+      LThr 0; LThr 0; LThr 0; LThr 0; LConsumeEv; LThr 0;
+      LThr 0; LConsumeEr; LThr 0; LThr 0; LThr 0; LConsumeEv; LThr 0; LThr 0;
+      LSpawn 2 KStart; LThr 2; LThr 2; LThr 2; LThr 0; LThr 0; LThr 2 ].
+
+  Example ex_run_unbuffered :
+    match crun ex_api ex_closed 0 ex_cf (cinit 0) ex_labels0 with
+    | Some s => recvd_ev s = [10; 11] ∧ recvd_er s = [7] ∧ thr s !! 2 = Some KDone ∧ panicked s = false
+    | None => False
+    end.
+  Proof. vm_compute. repeat split. Qed.
+
+  (* the variant of the code that sends the error while holding mu (cf_send_in_cs = true): same received sequences *)
+  Definition ex_it3 : @item nat nat := mkItem [] [MEv 10; MEr 8].
+  Example ex_run_send_in_cs :
+    match crun ex_api ex_closed 1 (mkCf true true) (cinit 0)
+               [ LThr 0; LKernel [ex_it3]; LThr 0; LThr 0; LThr 0; LThr 0; LConsumeEr; LThr 0; LThr 0; LConsumeEv ] with
+    | Some s => recvd_ev s = [10] ∧ recvd_er s = [8] ∧ mu s = None
+    | None => False
+    end.
+  Proof. vm_compute. repeat split. Qed.
+End Examples.
+
+Print Assumptions cinv_reachable.
+Print Assumptions no_panic.
+Print Assumptions mutual_exclusion.
+Print Assumptions no_blocking_in_cs.
+Print Assumptions events_fifo.
+Print Assumptions errors_fifo.
+Print Assumptions linearizable.
+Print Assumptions done_closed_by.
